@@ -83,12 +83,12 @@ theorem sim_enter (n : Nat) (ih : ∀ m, m ≤ n → SimStmt T m) (p : Stmt → 
       (brk cont : String) (c : SCtx) (nd nd' : Nat) (pre post : List Item) (env : Env) (M : Mem)
       (st0 : State),
     after p b = some b' → exec T.S.cs T.P m s b' = some out →
-    frag T.P T.cnts b = true → Stmt.wt T.vtys T.ret lp.1 lp.2 nd b = some nd' →
+    frag T.P T.cnts T.W b = true → Stmt.wt T.vtys T.ret lp.1 lp.2 nd b = some nd' →
     PosS T c nd pre → (c.jump = none ∨ b.startsLabel = true) →
     Ext T (funcstmt T.S.cs brk cont b c).ctx →
     T.S.its = pre ++ (funcstmt T.S.cs brk cont b c).items ++ post →
     ((lp.1 = true → CanJump T.S brk) ∧ (lp.2 = true → CanJump T.S cont)) →
-    SInv T.M0 T.S.cs T.cnts T.σ T.vtys s env M →
+    SInv T.M0 T.S.cs T.cnts T.W T.σ T.vtys s env M →
     (∀ l, targetLabel T.S.cs brk cont p b c = some l → AtLabel T.S l env M st0) →
     Post T lp brk cont st0 (pre ++ (funcstmt T.S.cs brk cont b c).items)
       (funcstmt T.S.cs brk cont b c).ctx out := by
